@@ -765,7 +765,8 @@ pub fn fault_trace(h: &History) -> Vec<String> {
 pub fn quiesce_polls_for(plan: &Plan) -> u32 {
     if cfg!(feature = "tracing") {
         let n: usize = plan.features.iter().map(|f| f.scenarios.len() + f.rules.iter().map(|r| r.scenarios.len()).sum::<usize>()).sum();
-        200 + 8 * (3 * n as u32)
+        // (each scenario of the plan may expand to three; two polls per attempt that can be in flight)
+        200 + 2 * (3 * n as u32)
     } else {
         0
     }
